@@ -109,23 +109,19 @@ fn find_referenced_identifiers(
 ) -> Vec<Identifier> {
     match entry {
         GlobalEntry::Procedure(p) => {
-            if p.name.value == ident.value {
-                find_procs(&ident.value, program)
-            } else {
-                let lookup_table = LookupTable {
-                    global_table: Some(global_table),
-                    local_table: Some(&p.local_table),
-                };
-                lookup_table
-                    .lookup(&ident.value)
-                    .map_or_else(Vec::new, |entry| match &entry {
-                        Entry::Type(_) => find_types(&ident.value, program),
-                        Entry::Procedure(_) => find_procs(&ident.value, program),
-                        Entry::Variable(_) | Entry::Parameter(_) => {
-                            find_vars(&ident.value, &p.name.value, program)
-                        }
-                    })
-            }
+            let lookup_table = LookupTable {
+                global_table: Some(global_table),
+                local_table: Some(&p.local_table),
+            };
+            lookup_table
+                .lookup(&ident.value)
+                .map_or_else(Vec::new, |entry| match &entry {
+                    Entry::Type(_) => find_types(&ident.value, program),
+                    Entry::Procedure(_) => find_procs(&ident.value, program),
+                    Entry::Variable(_) | Entry::Parameter(_) => {
+                        find_vars(&ident.value, &p.name.value, program)
+                    }
+                })
         }
         GlobalEntry::Type(_) => find_types(&ident.value, program),
     }
